@@ -117,6 +117,10 @@ func (s baseForQuoteHelper) ComputeSwapWithinBucketOutGivenIn(sqrtPriceCurrent, 
 	hasReachedTarget := sqrtPriceTarget.Equal(sqrtPriceNext)
 	if !hasReachedTarget {
 		amountBaseIn = types.CalcAmountBaseDelta(liquidity, sqrtPriceNext, sqrtPriceCurrent, true)
+		// the amount is rounded up to a whole unit: never charge more than what is left
+		if amountBaseIn.GT(amountBaseInRemaining) {
+			amountBaseIn = amountBaseInRemaining
+		}
 	}
 
 	amountQuoteOut := types.CalcAmountQuoteDelta(liquidity, sqrtPriceNext, sqrtPriceCurrent, false)
@@ -219,6 +223,10 @@ func (s quoteForBaseHelper) ComputeSwapWithinBucketOutGivenIn(sqrtPriceCurrent, 
 
 	if !hasReachedTarget {
 		amountQuoteIn = types.CalcAmountQuoteDelta(liquidity, sqrtPriceNext, sqrtPriceCurrent, true)
+		// the amount is rounded up to a whole unit: never charge more than what is left
+		if amountQuoteIn.GT(amountQuoteInRemaining) {
+			amountQuoteIn = amountQuoteInRemaining
+		}
 	}
 
 	amountBaseOut := types.CalcAmountBaseDelta(liquidity, sqrtPriceNext, sqrtPriceCurrent, false)
